@@ -44,4 +44,4 @@ Definition tags : list attr :=
 Example tags_loadable : place_loadable (place tags) = true.
 Proof. vm_compute. reflexivity. Qed.
 Example tiny_twice : exists f1, asf_save tiny tags cb_default = Ok f1 /\ asf_save f1 tags cb_default = Ok f1.
-Proof. eexists. split; vm_compute; reflexivity. Qed.
+Proof. eexists. split; [vm_compute; reflexivity|vm_compute; reflexivity]. Qed.
